@@ -4,7 +4,7 @@
    (go-oidc's Verify: bearer token, time of the call -> subject or error; consulted on every message) and the server configuration c
    (method, token, additional scopes, pool bound, heartbeat timeout), and either over ALL states
    (stronger than reachable ones) or over all event histories [au_run evs au_init]. *)
-From FRP Require Import Model.Auth Proofs.AuthProofs.
+From FRP Require Import Model.Auth Model.AuthShape Proofs.AuthProofs Proofs.AuthShapeProofs gen.GenAuth.
 Open Scope Z_scope.
 
 (* every session of every reachable state was admitted by RegisterControl on a verified login: under the
@@ -176,6 +176,34 @@ Theorem C04_session_table_keyed : forall H oidc c evs x y,
   as_rid x = as_rid y \/ as_sid x = as_sid y -> x = y.
 Proof. exact au_table_keyed. Qed.
 Print Assumptions C04_session_table_keyed.
+
+(* ---- reflective, over today's translator output (unit t4auth -> gen/GenAuth.v) --------------------------- *)
+
+(* the three Verify* methods of pkg/auth/token.go, as translated today, mean exactly the model's functions: the
+   scope test precedes the key test, the key test is ConstantTimeEqString(GetAuthKey(auth.token, m.Timestamp),
+   m.PrivilegeKey) with that argument order, nothing else happens *)
+Theorem C04_token_verifiers_have_modelled_shape : forall H c ts k,
+  ga_run H c AuErrTokenLogin gen_token_verify_login ts k = Some (au_tok_verify_login H c ts k) /\
+  ga_run H c AuErrTokenPing gen_token_verify_ping ts k = Some (au_tok_verify_ping H c ts k) /\
+  ga_run H c AuErrTokenWork gen_token_verify_workconn ts k = Some (au_tok_verify_workconn H c ts k).
+Proof. exact ga_token_verifiers_are_modelled. Qed.
+Print Assumptions C04_token_verifiers_have_modelled_shape.
+
+(* util.ConstantTimeEqString is subtle.ConstantTimeCompare on the two FULL strings, compared with 1 *)
+Theorem C04_ct_eq_compares_full_strings : ga_cteq_ok gen_ct_eq = true.
+Proof. exact ga_ct_eq_is_full_compare. Qed.
+Print Assumptions C04_ct_eq_compares_full_strings.
+
+(* RegisterControl: the only place that mentions AlwaysPassVerifier assigns it to the LOCAL verifier variable
+   (initialised from svr.authVerifier) under `internal && loginMsg.ClientSpec.AlwaysAuthPass`; that variable's
+   VerifyLogin result is returned on error before NewControl / ctlManager.Add / Start, and it is what NewControl
+   receives; no assignment to a field authVerifier exists in server/service.go *)
+Theorem C04_register_control_has_modelled_shape :
+  ga_regctl_ok gen_register_control = true /\
+  forall internal sp, ga_bypass_selected gen_register_control internal (asp_always_pass sp) =
+                      au_verifier_eqb (au_choose_verifier internal sp) AuAlwaysPass.
+Proof. exact (conj ga_register_control_shape ga_bypass_is_choose_verifier). Qed.
+Print Assumptions C04_register_control_has_modelled_shape.
 
 (* ---- the hypotheses are satisfiable: a concrete history (toy hash H(tok,ts) = tok ++ [ts], token "t") ------ *)
 Definition c04ex_H (tok : bytes) (ts : Z) : bytes := tok ++ [byte_of_Z ts].
